@@ -1,4 +1,102 @@
-(* temporary: replaced by the property theorems *)
-From Rocfl Require Import Model.Commit.
-Theorem C04_placeholder : True. Proof. exact I. Qed.
-Print Assumptions C04_placeholder.
+(** C04 - a commit is all-or-nothing even when file-system calls fail or a stop request arrives.
+
+    Model: Model/FsTree.v, Model/Commit.v ([Fault k] = the (k+1)-th file-system call of the process
+    is not executed and fails, every later call works; [Stop k] = ctrl-c arrives on entering the
+    (k+1)-th call: OcflRepo::close).  "new" is the main object of the fault-free run from the same
+    tree.  The theorems hold for EVERY position (no bound) and every tree satisfying [commit_pre];
+    [same_type] (the commit does not change the inventory type) excludes the declaration swap of an
+    upgrade - the known finding witnessed below. *)
+From Coq Require Import List NArith Bool.
+From Rocfl Require Import Base.Bytes Model.FsOps Model.FsTree Model.Commit Model.KnownC04
+  Proofs.CommitFacts Proofs.CommitPre Proofs.CommitPhases Corr.CheckCommit.
+Import ListNotations.
+
+(** a single fault at any position (j = Fault k), or none (j = NoInj): the main object is old or new;
+    success is reported only for new; as long as the new version directory is not in the object the
+    object is old and every content file of the staged version is still in the staged object (so a
+    retry or a reset finds them) *)
+Theorem C04_fault_atomic :
+  forall (c : cfg) (t0 : tree) (i0 : invr),
+    commit_pre c t0 i0 -> same_type c t0 i0 ->
+    forall j : inj, (forall n, j <> Kill n) -> (forall n, j <> Stop n) ->
+      let res := run (commit c) t0 j in
+      let t' := w_tree (snd res) in
+      let tnew := run_tree (commit c) t0 NoInj in
+      (same_at (c_mo c) t' t0 \/ same_at (c_mo c) t' tnew) /\
+      (is_ok (fst res) = true -> same_at (c_mo c) t' tnew) /\
+      (lookup t' (c_mo c ++ [head_of i0]) = None ->
+         same_at (c_mo c) t' t0 /\
+         forall d, In d (i_man (committed_inv c i0)) -> lookup t' (c_so c ++ d) = lookup t0 (c_so c ++ d)).
+Proof. exact commit_fault_atomic. Qed.
+Print Assumptions C04_fault_atomic.
+
+(** a stop request at any position, for an object that exists: old or new, the command returns (it is
+    not killed); when nothing was installed the staged content is kept *)
+Theorem C04_stop_atomic :
+  forall (c : cfg) (t0 : tree) (i0 : invr),
+    commit_pre c t0 i0 -> same_type c t0 i0 ->
+    forall k : nat, i_vs i0 <> [head_of i0] ->
+      let res := run (commit c) t0 (Stop k) in
+      let t' := w_tree (snd res) in
+      let tnew := run_tree (commit c) t0 NoInj in
+      (same_at (c_mo c) t' t0 \/ same_at (c_mo c) t' tnew) /\
+      is_killed (fst res) = false /\
+      (lookup t' (c_mo c ++ [head_of i0]) = None ->
+         same_at (c_mo c) t' t0 /\
+         forall d, In d (i_man (committed_inv c i0)) -> lookup t' (c_so c ++ d) = lookup t0 (c_so c ++ d)).
+Proof. exact commit_stop_atomic. Qed.
+Print Assumptions C04_stop_atomic.
+
+(** runs in which the injected event has not happened yet are runs of the fault-free world: the state in
+    which an event strikes is a state of the fault-free run (used to define "new") *)
+Theorem C04_unfired_is_fault_free :
+  forall c : cfg, nice (commit c).
+Proof. exact nice_commit. Qed.
+Print Assumptions C04_unfired_is_fault_free.
+
+(** non-vacuity: the hypotheses hold for a concrete second-version commit, and among its fault positions
+    are old + error (0,1), new + error (1,1: a fault while the staged object is removed) and new + ok (1,0) *)
+Example C04_nonvacuous :
+  commit_pre_b ex_cfg (ex_tree ex_d10) (ex_inv ex_d10) = true /\
+  same_type_b ex_cfg (ex_tree ex_d10) (ex_inv ex_d10) = true /\
+  sweep (commit ex_cfg) ex_cfg (ex_tree ex_d10) Fault 32 =
+    [(0,1); (0,1); (0,1); (0,1); (0,1); (0,1); (0,1); (0,1); (0,1); (0,1); (0,1); (0,1); (0,1); (0,1); (0,1); (0,1);
+     (0,1); (0,1); (0,1); (0,1); (0,1); (0,1); (0,1); (0,1); (0,1); (0,1); (1,1); (1,1); (1,1); (1,1); (1,0); (1,0)]%N.
+Proof. vm_compute. repeat split. Qed.
+
+(** * known findings (classifiers in Model/KnownC04.v), each witnessed on a concrete instance *)
+
+(** the commit that completes an upgrade (the staged inventory requires 0=ocfl_object_1.1, the object
+    declares 1.0): a fault at the creation of the new declaration (position 26), at its write (27) or
+    at the removal of the old one (28) returns an error with the main object neither old nor new and
+    rejected by the validator *)
+Lemma c04_upgrade_declaration_fault_refuted :
+  exists k,
+    c04_upgrade_declaration_fault (commit ex_cfg) ex_cfg (ex_tree ex_d11) k = true /\
+    predict PCommit ex_cfg (ex_tree ex_d11) (Fault k) = (2, 1)%N.
+Proof. exists 26%nat. vm_compute. split; reflexivity. Qed.
+
+(** upgrade of an object that was never committed: a fault in the rewrite of the staged declaration leaves
+    the main repository untouched, but the retried upgrade is refused and the retried commit installs
+    an object the validator rejects *)
+Lemma c04_staged_declaration_fault_refuted :
+  exists k,
+    c04_staged_declaration_fault (upgrade_object ex_cfg) ex_cfg (ex1_tree ex_d10) k = true /\
+    let t1 := run_tree (upgrade_object ex_cfg) (ex1_tree ex_d10) (Fault k) in
+    same_underb ex_mo t1 (ex1_tree ex_d10) = true /\
+    res_code (fst (run (upgrade_object ex_cfg) t1 NoInj)) = 1%N /\
+    res_code (fst (run (commit ex_cfg) t1 NoInj)) = 0%N /\
+    obj_validb ex_cfg (run_tree (commit ex_cfg) t1 NoInj) ex_mo = false.
+Proof. exists 5%nat. vm_compute. repeat split; reflexivity. Qed.
+
+(** a failing rmdir in clean_dirs_up leaves an empty directory in the staged content; the retried commit
+    succeeds and installs it (the fault-free commit does not) *)
+Lemma c04_cleanup_rmdir_fault_refuted :
+  exists k,
+    c04_cleanup_rmdir_fault (commit ex_cfg) ex_cfg (ex_tree ex_d10) k = true /\
+    let t1 := run_tree (commit ex_cfg) (ex_tree ex_d10) (Fault k) in
+    same_underb ex_mo t1 (ex_tree ex_d10) = true /\
+    res_code (fst (run (commit ex_cfg) t1 NoInj)) = 0%N /\
+    no_empty_dirb (run_tree (commit ex_cfg) t1 NoInj) ex_mo = false /\
+    no_empty_dirb (run_tree (commit ex_cfg) (ex_tree ex_d10) NoInj) ex_mo = true.
+Proof. exists 16%nat. vm_compute. repeat split; reflexivity. Qed.
